@@ -306,4 +306,13 @@ def run(prog: Program, col: Collector, tier: str, refs: Optional[Refs] = None, c
     c04._sequential_loops(prog, col, refs, cat, c04._subs_collections(prog, refs, cat))
     col.rule("R03.14", "a guard over the pairs of a substitution that drops or narrows pairs is universal", floor=2)
     c04._quantified_guards(prog, col, refs, cat, c04._subs_collections(prog, refs, cat))
+    # round 7: what every interpretation shares when it (re)builds a binder or substitutes into an evaluated tensor
+    from . import c05, kernels
+    col.rule("R03.15", "every constructed term is mangled: all bound names, fresh names, rebuilt through reflect (shared with C05 R05.2)", floor=6)
+    c05._mangle(prog, col, refs)
+    col.rule("R03.16", "a renaming set that is filtered by a test on itself is filtered to a fixpoint (shared with C04 R04.19)", floor=0)
+    c04._self_referential_filter(prog, col, refs, cat)
+    kernels.r_aligned_or_same_layout(prog, col, refs, cat, "R03.17")
+    kernels.r_unit_axis_padding(prog, col, refs, cat, "R03.18")
+    kernels.r_index_padding_count(prog, col, refs, cat, "R03.19")
     return col
